@@ -177,6 +177,9 @@ impl TypeResolver {
             return self.parse_type_structure(&inner);
         }
 
+        // `std::option::Option<T>` is `Option<T>`, `crate::models::User` is `User`
+        let cleaned = strip_path_prefix(cleaned);
+
         // Handle Option<T> -> Optional(T)
         if let Some(inner_type) = self.extract_option_inner_type(cleaned) {
             return TypeStructure::Optional(Box::new(self.parse_type_structure(&inner_type)));
@@ -266,6 +269,20 @@ impl TypeResolver {
             self.type_mappings
                 .insert(rust_type.clone(), ts_type.clone());
         }
+    }
+}
+
+/// The type a path names is identified by its last segment: `std::collections::HashMap<K, V>`
+/// is `HashMap<K, V>` and `crate::models::User` is `User`. The module prefix is Rust syntax and
+/// must neither hide a known type constructor nor reach the generated TypeScript.
+pub(crate) fn strip_path_prefix(rust_type: &str) -> &str {
+    if !rust_type.starts_with(|c: char| c.is_alphabetic() || c == '_') {
+        return rust_type;
+    }
+    let head_end = rust_type.find('<').unwrap_or(rust_type.len());
+    match rust_type[..head_end].rfind("::") {
+        Some(pos) => &rust_type[pos + 2..],
+        None => rust_type,
     }
 }
 
